@@ -103,6 +103,8 @@ def rule_alias_single_assignment(repo: Repo, chk: Check, rule: str, floor_alias=
             chk.judge(rule, key, guarded,
                       f"{recv} is made to share {norm(st.value)[:60]} (no copy is emitted) without a guard 'not {recv}.is_overwritten': "
                       f"a later write to either variable changes the other", {"rhs": "alias", "guards": [norm(t) + "=" + str(p) for t, p in guard_atoms(cfg, nid)]}, where)
+            if not literal_only:
+                _alias_source_clause(chk, rule, fn, st, tgt, recv, key, where)
     if n_alias < floor_alias:
         raise AnalysisError(f"{rule}: only {n_alias} aliasing stores recognised (expected >= {floor_alias}); the rule lost its anchor")
     # constant propagation to the readers of a variable
@@ -126,6 +128,56 @@ def rule_alias_single_assignment(repo: Repo, chk: Check, rule: str, floor_alias=
                               f"a variable assigned twice would be folded to its first value", None, f"{cp.path}:{c.lineno} in {fn.qual}")
     if found < 1:
         raise AnalysisError(f"{rule}: constant propagation through variables (loop over nodes_reading calling set_constant) not found")
+
+
+def _alias_source_clause(chk, rule, fn, st, tgt, recv, key, where):
+    """X.code_expr = <register of another value V>: sharing is sound only if V, too, is never assigned again (a value that is
+    reassigned later changes under the new name).  Evaluated as a truth table over the tests on the path to the store:
+    whenever V is a register, 'V.is_overwritten' must be false."""
+    import itertools
+    from .c15 import symbolic_path, _subst
+    env, conds = symbolic_path(fn, st)
+    rhs = _subst(st.value, env)
+    srcs = []
+    for a in ast.walk(rhs):
+        if isinstance(a, ast.Attribute) and a.attr == "code_expr" and norm(a.value) != recv and not any(norm(a.value) == x for x in srcs):
+            srcs.append(norm(a.value))
+    for src in srcs:
+        if "get_register_name" in src or "get_intermediate_symbol" in src or "IC10Register(" in src:
+            continue   # a register made for this purpose, not a user value
+        S, R = src + ".is_overwritten", f"isinstance({src}, IC10Register)"
+
+        def formula(e):
+            if isinstance(e, ast.BoolOp):
+                return ("and" if isinstance(e.op, ast.And) else "or", [formula(v) for v in e.values])
+            if isinstance(e, ast.UnaryOp) and isinstance(e.op, ast.Not):
+                return ("not", formula(e.operand))
+            if isinstance(e, ast.Constant):
+                return ("const", bool(e.value))
+            t = norm(e)
+            if t == S:
+                return ("atom", "S")
+            if t == R or t.startswith(f"isinstance({src}, ") and "IC10Register" in t:
+                return ("atom", "R")
+            return ("atom", "?" + t)
+        fs = [formula(t) if pol else ("not", formula(t)) for t, pol in conds]
+        # tests inside the right-hand side that select the register branch
+        atoms = {"S", "R"}
+        for f in fs:
+            _fatoms(f, atoms)
+        free = sorted(a for a in atoms if a.startswith("?"))
+        if len(free) > 8:
+            raise AnalysisError(f"{fn.qual}: too many tests around the aliasing store")
+        names = ["S", "R"] + free
+        bad = False
+        for vals in itertools.product([False, True], repeat=len(names)):
+            a = dict(zip(names, vals))
+            if a["R"] and a["S"] and all(_feval(f, a) for f in fs):
+                bad = True
+        chk.judge(rule, key + " [the shared value is not assigned again either]", not bad,
+                  f"{recv} is made to share the register of {src} (no copy is emitted) also when {src} is assigned again later: "
+                  f"'y = x; x = x + 1' makes y follow the new value of x (the tests on the path are {[norm(t)[:60] + ('' if pol else ' is False') for t, pol in conds]})",
+                  {"source": src}, where)
 
 
 def _rhs_kind(v, recv, attr, rd, nid, depth=0):
